@@ -28,6 +28,10 @@
                         for them): member paths at any depth, BOOL / BOOL-array members, arrays of structures,
                         program-scoped tags — given as structured requests (a visible tag, template member names
                         spelled as the controller spells them, decimal fields) whose text is [item_text].
+     C01_strings        THE HEADLINE ON STRINGS: C01_guarded_statement for every list of request strings that satisfy
+                        the computable predicate [plain_request p s] (Proofs/ReadStrings.v), with no resolution
+                        hypothesis.  The strings outside the predicate are listed, with an Example per class, next
+                        to the theorem (end of this file).
      C01_guarded_from_resolution : the guarded statement follows from [resolution_sound].  What separates
                         C01_paths from [resolution_sound]: (a) C01_paths_are_requests proves parse_request (item_text x)
                         = Some (item_ast x), exists_in and the guard for every structured request, but the converse
@@ -41,7 +45,7 @@ From Coq Require Import String.
 From PV Require Import Base.Bytes Base.Res Base.PyStr Spec.Project Spec.Expect Spec.TargetIface Spec.TargetCore Spec.TargetLogix.
 From PV Require Import Model.LogixRead.
 From PV Require Import Proofs.ReadBits Proofs.ReadDecode Proofs.ReadTarget Proofs.ReadValue Proofs.ReadFrag Proofs.ReadMulti
-  Proofs.ReadPlan Proofs.ReadCorrect Proofs.ReadResolve Proofs.ReadResolve1 Proofs.ReadResolve2.
+  Proofs.ReadPlan Proofs.ReadCorrect Proofs.ReadResolve Proofs.ReadResolve1 Proofs.ReadResolve2 Proofs.ReadStrings.
 Open Scope list_scope.
 Open Scope Z_scope.
 
@@ -528,3 +532,87 @@ Proof.
                = Done tags) by (rewrite Hrun; reflexivity).
   vm_compute in Hc. injection Hc as <-. reflexivity.
 Qed.
+
+(* ================================================================ THE HEADLINE ON REQUEST STRINGS.
+   [plain_request p s] (Proofs/ReadStrings.v) is a computable predicate of the string and the project:
+   the string splits into [Program:P.]tag[i..].member[j..]...[.bit][{n}]; rendering the pieces back gives the
+   string itself; the tag is a visible tag and the members are template members, all named exactly as the
+   controller names them; names are ASCII without . [ ] { }, 1..255 characters (a single controller-scope
+   segment: also without ':'); no member segment is made only of digits; decimal fields have at most 4300
+   digits, index values fit 32 bits, at most three per segment; array dimensions are at most 2^32; a BOOL tag
+   carries no index / bit / count, a BOOL array no bit and no more indices than dimensions.
+   For such strings C01_guarded_statement holds without any resolution hypothesis ([dword_arrays]: a project-level
+   computable condition, BOOL arrays have a dimension).
+
+   OUTSIDE the predicate, and why:
+     (a) a name spelled in another case        the reference (like Logix) is case-insensitive, the driver's tag
+                                               dict is not (README: names are case-sensitive): out_case
+     (b) a decimal field of > 4300 digits      Python's int() refuses it, Expect.parse_nat reads it: out_digits
+     (c) a name of >= 256 characters           the symbolic segment has a one-byte length (symbolic addressing;
+                                               by symbol instance the read works): out_long_name
+     (d) x[i] on a scalar DWORD                the client sends x[0], the target rejects the index: out_scalar_dword
+     (e) a member segment made only of digits  both the driver and Expect.parse_request read it as a bit: not a
+                                               member request at all
+     (f) non-ASCII names                       outside the text domain of the model (Base/PyStr.v)
+     (g) NOT KNOWN TO FAIL, only unproved: a single controller-scope segment whose name contains ':' (module tags
+         read whole, `Rack:I`; their members `Rack:I.Data` are inside), array dimensions above 2^32. *)
+Definition C01_strings : Prop :=
+  forall p mem pol basic cfg fuel st ms reqs asts,
+    wf_project p = true -> wf_mem p mem = true -> layout_ok p = true -> upload_ok p = true -> dword_arrays p = true ->
+    0 < po_bool_true pol < 256 ->
+    quiet (mkLState p mem pol basic) ms st -> (c_micro800 cfg = false -> ms = true) -> c_conn cfg < 65536 ->
+    Forall (fun s => plain_request p s = true) reqs ->
+    Forall2 (exists_in p mem cfg fuel) reqs asts -> Forall (fun s => C01_guard p s = false) reqs ->
+    C01_conclusion p mem cfg fuel st reqs asts.
+
+Theorem C01_strings_hold : C01_strings.
+Proof.
+  intros p mem pol basic cfg fuel st ms reqs asts Hwf Hwm Hlay Hup Hda Hbt Hq Hms Hconn Hplain HF Hg.
+  assert (Hxs : exists xs, map item_text xs = reqs /\ map item_ast xs = asts /\ Forall (item_ok p mem cfg fuel) xs).
+  { induction HF as [|s r reqs asts H _ IH]; [exists []; repeat split; constructor|].
+    inversion Hplain as [|? ? Hp Hplain']; subst. inversion Hg as [|? ? Hgs Hg']; subst.
+    destruct (IH Hplain' Hg') as (xs & E1 & E2 & Hok).
+    destruct H as (Hpr & Href & q & path & Hparse & Hrp & T1 & T2 & T3 & T4).
+    assert (Hn16 : pq_elements q < 65536) by (unfold C01_guard in Hgs; rewrite Hparse in Hgs; apply Z.leb_gt; exact Hgs).
+    destruct (plain_item p mem cfg fuel s r Hp Hpr Href) as (x & Ex1 & Ex2 & Hx).
+    { exists q, path. split; [exact Hparse|]. split; [exact Hrp|]. repeat split; assumption. }
+    exists (x :: xs). cbn [map]. rewrite Ex1, Ex2, E1, E2. repeat split. constructor; assumption. }
+  destruct Hxs as (xs & <- & <- & Hok).
+  exact (C01_paths_hold p mem pol basic cfg fuel st ms xs Hwf Hwm Hlay Hup Hda Hbt Hq Hms Hconn Hok).
+Qed.
+Print Assumptions C01_strings_hold.
+
+Example C01_strings_nonvacuous :
+  forallb (plain_request px_proj) (map item_text px_items) = true /\ forallb (plain_request ex_proj) ex_reqs = true.
+Proof. split; vm_compute; reflexivity. Qed.
+
+(* ---- outside classes *)
+Definition out_st (p : project) (m : Project.mem) : tstate lstate := set_app (mkLState p m default_policy init_basic) (init_tstate init_lstate).
+Definition has_value (p : project) (m : Project.mem) (s : text) : bool :=
+  match parse_request s with Some r => match ref_read p m r with Some _ => true | None => false end | None => false end.
+Definition client_fails (p : project) (m : Project.mem) (cfg : ccfg) (s : text) : bool :=
+  match snd (run_read 5000 cfg (client_tags p) (out_st p m) [s]) with
+  | Done [t] => tg_error t
+  | _ => false
+  end.
+Definition outside (p : project) (m : Project.mem) (cfg : ccfg) (s : text) : bool :=
+  negb (plain_request p s) && has_value p m s && client_fails p m cfg s.
+
+(* (a) a name spelled in another case *)
+Example out_case : outside ex_proj ex_mem ex_cfg (zs "X") = true.
+Proof. vm_compute. reflexivity. Qed.
+(* (b) a decimal field of more than 4300 digits: Python's int() refuses it *)
+Definition long_index : text := zs "a[" ++ repeat 48 4300 ++ zs "1]".
+Example out_digits : outside ex_proj ex_mem ex_cfg long_index = true.
+Proof. vm_compute. reflexivity. Qed.
+(* (c) a name of 256 characters: the symbolic segment has a one-byte length *)
+Definition long_name : text := repeat 97 256.
+Definition ln_proj : project := mkProject [] [ex_tag long_name 7 196 []].
+Definition ln_mem : Project.mem := [(7, [1; 0; 0; 0])].
+Example out_long_name : wf_project ln_proj = true /\ outside ln_proj ln_mem (mkCfg 4000 false false) long_name = true.
+Proof. vm_compute. split; reflexivity. Qed.
+(* (d) x[i] on a scalar DWORD *)
+Definition sd_proj : project := mkProject [] [ex_tag (zs "d") 7 211 []].
+Definition sd_mem : Project.mem := [(7, [8; 0; 0; 0])].
+Example out_scalar_dword : wf_project sd_proj = true /\ dword_arrays sd_proj = false /\ outside sd_proj sd_mem ex_cfg (zs "d[3]") = true.
+Proof. vm_compute. repeat split; reflexivity. Qed.
